@@ -184,6 +184,7 @@ def scope_GetKeyed : List Ev := [
 
 def scope_createInstance : List Ev := [
   .call "s.setInstance" [],
+  .call "s.shareInstance" [],
   .call "invoker.Invoke" [],   -- rCtor / tCtor / the initializer (USER), after the parameters were resolved through s.Get
   .call "s.setInstance" [],
   .call "s.setInstance" [],
